@@ -93,7 +93,11 @@ def run(a, res):
         return resp
 
     org = Origin(handler)
-    sq = Squid(a.work, conf="cache_mem 64 MB\nmaximum_object_size_in_memory 8 MB\nacl nocache urlpath_regex ^/nc/\ncache deny nocache\n")
+    # one seed in three runs with the strict message parser
+    strict = (a.seed % 3 == 2)
+    if strict:
+        res.count("runs_with_relaxed_header_parser_off")
+    sq = Squid(a.work, conf="cache_mem 64 MB\nmaximum_object_size_in_memory 8 MB\nacl nocache urlpath_regex ^/nc/\ncache deny nocache\n" + ("relaxed_header_parser off\n" if strict else ""))
     sq.start()
     stalled = [0]
 
